@@ -72,7 +72,8 @@ def content_param(cf, role):
     if key in _CROLE_CACHE:
         return _CROLE_CACHE[key]
     import ast as _ast
-    params = [p_ for p_ in cf.params() if p_ not in ('self', 'cls')]
+    a_ = cf.node.args
+    params = [x.arg for x in a_.posonlyargs + a_.args + a_.kwonlyargs if x.arg not in ('self', 'cls')]
     res = role if role in params else None
     if res is None:
         cands = []
